@@ -70,10 +70,10 @@ FValid(f) == f.inf # 0 \/ IsZ(f.prec) \/ ICmp(INat(FDigits(f)), f.prec) <= 0
 
 RNum(c) == CASE c = "0" -> IZero [] c \in {"1", "1/2", "1/3"} -> INat(1) [] c \in {"-1", "-1/2"} -> INat(-1)
              [] c = "3" -> INat(3) [] c = "22/7" -> INat(22) [] c = "big" -> BigU [] c = "-big" -> INeg(BigU)
-             [] c = "tiny" -> INat(1)
-RDen(c) == CASE c \in {"0", "1", "-1", "3"} -> INat(1) [] c \in {"1/2", "-1/2"} -> INat(2) [] c = "1/3" -> INat(3)
+             [] c = "tiny" -> INat(1) [] c = "2^64" -> W64 [] c = "2^100" -> I(0, <<0,0,0,0,0,0,0,0,0,0,0,0,16>>)
+RDen(c) == CASE c \in {"0", "1", "-1", "3", "2^64", "2^100"} -> INat(1) [] c \in {"1/2", "-1/2"} -> INat(2) [] c = "1/3" -> INat(3)
              [] c \in {"22/7", "big", "-big"} -> INat(7) [] c = "tiny" -> BigU
-RClasses == <<"0", "1", "-1", "1/2", "-1/2", "1/3", "3", "22/7", "big", "-big", "tiny">>
+RClasses == <<"0", "1", "-1", "1/2", "-1/2", "1/3", "3", "22/7", "2^64", "2^100", "big", "-big", "tiny">>
 
 \* position of a character in a string of distinct characters (used to split "type:value", "value@prec")
 SplitAt(s, ch) == CHOOSE i \in 1..Len(s) : SubSeq(s, i, i) = ch
@@ -99,22 +99,28 @@ Cl(axis, tier) ==
     \* second operand of a binary float operator: same precision as the first (see Tuples)
     [] axis \in {"Fb2", "Fb10"} -> IF tier = "quick" THEN FValsSecond ELSE FValsPlain
     [] axis \in {"Fhb2", "Fhb10"} -> IF tier = "quick" THEN FValsSecond \o <<"hugeexp">> ELSE FValsHuge
+    \* logarithms: every non-positive argument of the unrepaired release build hangs for the whole budget (F25),
+    \* the quick tier keeps two of them per base
+    [] axis \in {"Fl2", "Fl10"} -> IF tier = "quick"
+          THEN FClassesOf(<<"0", "1", "-1", "2", "half", "frac", "big", "tiny", "inf", "-inf", "hugeexp">>) ELSE FClassesOf(FValsHuge)
+    \* denominator limits of next_up / next_down / nearest: the walk takes about `limit` steps (finding C16.N4)
+    [] axis = "Ulim" -> IF tier = "quick" THEN <<"0", "1", "2", "7", "1000">> ELSE <<"0", "1", "2", "7", "1000", "w">>
     [] axis \in {"Fs10"} -> FClassesOf(<<"0", "1", "-1", "2", "inf", "-inf">>)
     [] axis \in {"R", "X"} -> RClasses
     [] axis = "Form4" -> <<"vv", "rv", "vr", "rr">>
     [] axis = "D" -> <<"nan", "inf", "-inf", "0", "-0", "1", "0.1", "-2.5", "minpos", "max", "-max", "2^100">>
 
-AxisBase(axis) == IF axis \in {"F2", "Fh2", "Fb2", "Fhb2"} THEN 2 ELSE 10
+AxisBase(axis) == IF axis \in {"F2", "Fh2", "Fb2", "Fhb2", "Fl2"} THEN 2 ELSE 10
 IsSecondF(axis) == axis \in {"Fb2", "Fb10", "Fhb2", "Fhb10"}
 
 \* value of class c on an axis; `first` is the first argument's class name (binary float operators reuse its precision)
 Rep(axis, c, first) ==
-  CASE axis \in {"U"} -> [k |-> "U", v |-> IntOf(c)]
+  CASE axis \in {"U", "Ulim"} -> [k |-> "U", v |-> IntOf(c)]
     [] axis \in {"I"} -> [k |-> "I", v |-> IntOf(c)]
     [] axis \in {"Nroot", "Npow", "Nshift", "Nchunk", "Radix", "Nprec", "Zs"} -> [k |-> "N", v |-> IntOf(c)]
     [] axis = "Ipow" -> [k |-> "I", v |-> IntOf(c)]
     [] axis \in {"Pu", "Pa"} -> [k |-> "P", t |-> Before(c, ":"), v |-> IntOf(After(c, ":"))]
-    [] axis \in {"F2", "F10", "Fh2", "Fh10", "Fs10"} -> FRep(AxisBase(axis), Before(c, "@"), After(c, "@"))
+    [] axis \in {"F2", "F10", "Fh2", "Fh10", "Fs10", "Fl2", "Fl10"} -> FRep(AxisBase(axis), Before(c, "@"), After(c, "@"))
     [] IsSecondF(axis) -> FRep(AxisBase(axis), c, After(first, "@"))
     [] axis = "R" -> [k |-> "R", num |-> RNum(c), den |-> RDen(c)]
     [] axis = "X" -> [k |-> "X", num |-> RNum(c), den |-> RDen(c)]
@@ -188,6 +194,7 @@ IntOps ==
 FloatOps(b) ==
   LET T == IF b = 2 THEN "F2" ELSE "F10"
       Fa == T  Fh == IF b = 2 THEN "Fh2" ELSE "Fh10"
+      Fl == IF b = 2 THEN "Fl2" ELSE "Fl10"
       Fb == IF b = 2 THEN "Fb2" ELSE "Fb10"  Fhb == IF b = 2 THEN "Fhb2" ELSE "Fhb10"
       N(s) == T \o "." \o s
   IN << Op(N("add"), "f_addsub", <<Fa, Fb>>, 0), Op(N("sub"), "f_addsub", <<Fa, Fb>>, 0),
@@ -196,17 +203,17 @@ FloatOps(b) ==
         Op(N("rem_euclid"), "f_rem", <<Fa, Fb>>, 0), Op(N("div_rem_euclid"), "f_rem", <<Fa, Fb>>, 0),
         Op(N("inv"), "f_inv", <<Fh>>, 1), Op(N("sqr"), "f_sqr", <<Fh>>, 1), Op(N("cubic"), "f_cubic", <<Fh>>, 1),
         Op(N("sqrt"), "f_sqrt", <<Fh>>, 1), Op(N("exp"), "f_exp", <<Fh>>, 1), Op(N("exp_m1"), "f_expm1", <<Fh>>, 1),
-        Op(N("ln"), "f_ln", <<Fh>>, 1), Op(N("ln_1p"), "f_ln1p", <<Fh>>, 1),
+        Op(N("ln"), "f_ln", <<Fl>>, 1), Op(N("ln_1p"), "f_ln1p", <<Fl>>, 1),
         Op(N("powi"), "f_powi", <<Fh, "Ipow">>, 1), Op(N("powf"), "f_powf", <<Fa, Fb>>, 1),
         Op(N("trunc"), "f_round", <<Fh>>, 1), Op(N("fract"), "f_round", <<Fh>>, 1), Op(N("ceil"), "f_round", <<Fh>>, 1),
         Op(N("floor"), "f_round", <<Fh>>, 1), Op(N("round"), "f_round", <<Fh>>, 1),
-        Op(N("split_at_point"), "f_round", <<Fh>>, 1), Op(N("to_int"), "f_toint", <<Fh>>, 1),
+        Op(N("split_at_point"), "f_split", <<Fh>>, 1), Op(N("to_int"), "f_toint", <<Fh>>, 1),
         Op(N("shl"), "f_shl", <<Fh, "Zs">>, 1), Op(N("shr"), "f_shr", <<Fh, "Zs">>, 1),
         Op(N("shl_assign"), "f_shl", <<Fh, "Zs">>, 1),
         Op(N("ulp"), "f_ulp", <<Fh>>, 1),
         Op(N("neg"), "f_total", <<Fh>>, 0), Op(N("abs"), "f_total", <<Fh>>, 0), Op(N("cmp"), "f_total", <<Fh, Fhb>>, 1),
         Op(N("eq"), "f_total", <<Fh, Fhb>>, 1), Op(N("sign"), "f_total", <<Fh>>, 0),
-        Op(N("with_precision"), "f_total", <<Fh, "Nprec">>, 1), Op(N("clone"), "f_total", <<Fh>>, 0),
+        Op(N("with_precision"), "f_withprec", <<Fh, "Nprec">>, 1), Op(N("clone"), "f_total", <<Fh>>, 0),
         Op(N("to_f32"), "f_total", <<IF b = 2 THEN Fh ELSE "Fs10">>, 1),
         Op(N("to_f64"), "f_total", <<IF b = 2 THEN Fh ELSE "Fs10">>, 1),
         Op(N("convert_base"), "f_base", <<Fh>>, 1),
@@ -228,8 +235,8 @@ RatOps ==
      Op("R.to_f32", "total", <<"R">>, 0), Op("R.to_f64", "total", <<"R">>, 0), Op("R.to_f64_fast", "total", <<"R">>, 0),
      Op("R.to_int", "total", <<"R">>, 0), Op("R.neg", "total", <<"R">>, 0), Op("R.abs", "total", <<"R">>, 0),
      Op("R.cmp", "total", <<"R", "R">>, 0), Op("R.to_string", "total", <<"R">>, 0), Op("X.canonicalize", "total", <<"X">>, 0),
-     Op("R.next_up", "r_farey", <<"R", "U">>, 1), Op("R.next_down", "r_farey", <<"R", "U">>, 1),
-     Op("R.nearest", "r_farey", <<"R", "U">>, 1),
+     Op("R.next_up", "r_farey", <<"R", "Ulim">>, 1), Op("R.next_down", "r_farey", <<"R", "Ulim">>, 1),
+     Op("R.nearest", "r_farey", <<"R", "Ulim">>, 1),
      Op("R.simplest_in", "total", <<"R", "R">>, 0), Op("R.simplest_from_f64", "total", <<"D">>, 0),
      Op("R.try_from_f64", "total", <<"D">>, 0), Op("f64.try_from_R", "total", <<"R">>, 0),
      Op("f32.try_from_R", "total", <<"R">>, 0),
@@ -238,6 +245,10 @@ RatOps ==
      Op("R.try_from_F2", "f_total", <<"F2">>, 0), Op("R.simplest_from_F10", "f_total", <<"F10">>, 1) >>
 
 Inventory == IntOps \o FloatOps(2) \o FloatOps(10) \o RatOps
+
+\* cells generated in every tier besides the axis products (witnesses of known findings kept out of the quick axes)
+Extras == { <<"R.next_up", <<"1/2", "w">> >>, <<"R.nearest", <<"tiny", "w">> >> }
+ExtraTuples(op) == {x[2] : x \in {y \in Extras : y[1] = op}}
 
 \* ------------------------------------------------------------------ cells
 \* all class tuples of a signature (arity 1..3); the second float operand takes the precision of the first
